@@ -118,4 +118,125 @@ theorem dimAndLimit_keeps {dimension limit d l : Option (List Nat)} (h : dimAndL
         · simp at h
       · simp at h; exact ⟨fun _ => h.1.symm, fun _ => h.2.symm⟩
 
+/-! ### a derived dimension never survives into the next check -/
+
+theorem forget_assigned (d : Option (List Nat)) : (DimState.assigned d).forget = d := rfl
+
+theorem dimOfShape_ne_nil (sh : List Nat) : dimOfShape sh ≠ [] := by
+  unfold dimOfShape; split
+  · simp
+  · rename_i h; intro h2; rw [h2] at h; simp at h
+
+/-- the checks see only what the user assigned -/
+theorem paramCheckSt_fresh (single : Bool) (values : PyVal) (zc : Option Nat) (axes : Option (List (Option Nat)))
+    (s : DimState) :
+    paramCheckSt single values zc axes s = paramCheckSt single values zc axes (DimState.assigned s.forget) := by
+  unfold paramCheckSt; rw [forget_assigned]
+
+theorem checkOrSetDim_some {x : List Nat} {v : PyVal} {d : Option (List Nat)} (h : checkOrSetDim (some x) v = .ok d) :
+    d = some x ∧ (v ≠ .none → x ≠ []) := by
+  unfold checkOrSetDim at h
+  split at h
+  · simp at h; exact ⟨h.symm, fun hv => absurd rfl hv⟩
+  · split at h
+    · simp at h
+    · simp only at h
+      split at h
+      · simp at h
+      · rename_i sh _ hne
+        simp at h hne
+        refine ⟨h.symm, fun _ => ?_⟩
+        rw [← hne]; exact dimOfShape_ne_nil sh
+
+/-- … and leave what the user assigned as it was: whatever a check derives is gone before the next one -/
+theorem paramCheckSt_user (single : Bool) (values : PyVal) (zc : Option Nat) (axes : Option (List (Option Nat)))
+    (s : DimState) : (paramCheckSt single values zc axes s).1.forget = s.forget := by
+  unfold paramCheckSt
+  cases hp : paramDefaults single values zc s.forget axes with
+  | error e => simp [DimState.forget]
+  | ok d =>
+    simp only
+    cases hf : s.forget with
+    | none =>
+      cases d <;> simp [DimState.forget]
+    | some x =>
+      rw [hf] at hp
+      unfold paramDefaults at hp
+      simp only [bind_ok, pure_ok] at hp
+      obtain ⟨_, _, _, _, d', hd', rfl⟩ := hp
+      obtain ⟨rfl, hx⟩ := checkOrSetDim_some hd'
+      simp only [Option.isNone_some, Bool.false_and, DimState.forget, Bool.false_eq_true, if_false]
+      cases x with
+      | cons a as => simp [truthyDim]
+      | nil =>
+        have : values = .none := by
+          cases hv : values with
+          | none => rfl
+          | _ => exact absurd rfl (hx (by rw [hv]; simp))
+        subst this
+        simp [truthyVal]
+
+theorem calMeasCheckSt_fresh (controlled : List PyVal) (axes : Option (List (Option Nat))) (s : DimState) :
+    calMeasCheckSt controlled axes s = calMeasCheckSt controlled axes (DimState.assigned s.forget) := by
+  unfold calMeasCheckSt; rw [forget_assigned]
+
+theorem foldDimSt_user (d0 : Option (List Nat)) (vs : List PyVal) (t : DimState)
+    (h : (t.derived = false ∧ t.held = d0) ∨ (t.derived = true ∧ d0 = none)) : (foldDimSt vs t).1.forget = d0 := by
+  induction vs generalizing t with
+  | nil =>
+    simp only [foldDimSt, DimState.forget]
+    rcases h with ⟨h1, h2⟩ | ⟨h1, h2⟩
+    · simp [h1, h2]
+    · simp [h1, h2]
+  | cons v vs ih =>
+    simp only [foldDimSt]
+    cases hc : checkOrSetDim t.held v with
+    | error e =>
+      simp only [DimState.forget]
+      rcases h with ⟨h1, h2⟩ | ⟨h1, h2⟩
+      · simp [h1, h2]
+      · simp [h1, h2]
+    | ok d =>
+      simp only
+      apply ih
+      rcases h with ⟨h1, h2⟩ | ⟨h1, h2⟩
+      · cases hd0 : d0 with
+        | some x =>
+          rw [h2, hd0] at hc
+          obtain ⟨rfl, _⟩ := checkOrSetDim_some hc
+          left; simp [h1, h2, hd0]
+        | none =>
+          cases d with
+          | none => left; simp [h1, h2, hd0]
+          | some y => right; simp [h1, h2, hd0]
+      · right; simp [h1, h2]
+
+theorem calMeasCheckSt_user (controlled : List PyVal) (axes : Option (List (Option Nat))) (s : DimState) :
+    (calMeasCheckSt controlled axes s).1.forget = s.forget := by
+  unfold calMeasCheckSt
+  split
+  · simp [DimState.forget]
+  · exact foldDimSt_user s.forget controlled _ (Or.inl ⟨rfl, rfl⟩)
+
+theorem DimCheck.run_user (c : DimCheck) (s : DimState) : (c.run s).1.forget = s.forget := by
+  cases c with
+  | param single v zc ax => exact paramCheckSt_user single v zc ax s
+  | calMeas vs ax => exact calMeasCheckSt_user vs ax s
+
+theorem DimCheck.run_fresh (c : DimCheck) (s : DimState) : c.run s = c.run (DimState.assigned s.forget) := by
+  cases c with
+  | param single v zc ax => exact paramCheckSt_fresh single v zc ax s
+  | calMeas vs ax => exact calMeasCheckSt_fresh vs ax s
+
+theorem dimHistory_user (cs : List DimCheck) (s : DimState) : (dimHistory cs s).forget = s.forget := by
+  induction cs generalizing s with
+  | nil => rfl
+  | cons c cs ih => simp only [dimHistory]; rw [ih, DimCheck.run_user]
+
+/-- whatever checks (writes, refused or not) went before, with whatever values: a check gives the outcome, and leaves the
+dimension, that it gives on an item to which only the user's own assignment was ever made -/
+theorem check_after_any_history (cs : List DimCheck) (c : DimCheck) (s : DimState) :
+    c.run (dimHistory cs s) = c.run (DimState.assigned s.forget) := by
+  rw [DimCheck.run_fresh, dimHistory_user]
+
 end Dlis
